@@ -155,8 +155,10 @@ def write_table_hdf5(
     existing_header = None
     if name in output_group:
         if append and overwrite:
-            # Delete only the dataset itself
+            # Delete only the dataset itself (and its serialized metadata)
             del output_group[name]
+            if meta_path(name) in output_group:
+                del output_group[meta_path(name)]
         elif append:
             # Data table exists, so we interpret "append" to mean "extend
             # existing table with the table passed in". However, this requires
